@@ -3833,9 +3833,22 @@ FROM (
                 builder.cross_join(info["table_src"], info["sql_alias"])
                 continue
             right_alias = info["sql_alias"]
+
+            def _left_key(k: str, upto: int = idx) -> str:
+                # FULL JOIN: the key of a datapoint may come from ANY preceding operand
+                # (the first one can be the missing side), so match on their COALESCE.
+                if node.op == tokens.FULL_JOIN and upto >= 1:
+                    sides = [
+                        f"{i['sql_alias']}.{quote_name(k)}"
+                        for i in clause_info[: upto + 1]
+                        if k in i["ds"].components
+                    ]
+                    if len(sides) > 1:
+                        return f"COALESCE({', '.join(sides)})"
+                return f"{comp_to_alias.get(k, first_sql_alias)}.{quote_name(k)}"
+
             on_parts = [
-                f"{comp_to_alias.get(k, first_sql_alias)}.{quote_name(k)} = "
-                f"{right_alias}.{quote_name(k)}"
+                f"{_left_key(k)} = {right_alias}.{quote_name(k)}"
                 for k in pairwise_keys[idx]
                 if k in info["ds"].components
             ]
